@@ -66,6 +66,9 @@ def undecoded(kind, tid=1):
         return E.ev('TRACE_DATA_THREAD_TERMINATE', 0, (tid, 0, 0, 0), tid=tid)     # the thread's own terminate record
     if kind == 'L':
         return E.ev('TRACE_LOST_EVENTS', 0, (0, 0, 0, 0), tid=tid)
+    if kind == 'A':
+        # ANOTHER thread, which logged nothing else, announces this thread as its exec copy (word 2 of the new-thread record set)
+        return E.ev('TRACE_DATA_NEWTHREAD', 0, (tid, 0x96, 1, 9), tid=tid + 100)
     return E.ev('MACH_WAIT', 0, (0x10, 0, 0, 0), tid=tid)
 
 
@@ -159,7 +162,7 @@ def variants(label, win):
         yield ('piled-up-unterminated-lookups',), [win[0]] + pile + win[1:]
         for i in range(n):
             yield ('dup', i), win[:i + 1] + [win[i]] + win[i + 1:]
-        for kind in ('K', 'U', 'W', 'T', 'D', 'X', 'L', 'S'):
+        for kind in ('K', 'U', 'W', 'T', 'D', 'X', 'L', 'S', 'A'):
             for i in range(n + 1):
                 yield ('ins', kind, i), win[:i] + [undecoded(kind)] + win[i:]
 
